@@ -40,6 +40,7 @@ type c01 struct {
 	fNTHash, fNTHashHex, fLMHash, fLMHex             *ssa.Function
 	dist                                             flow.Distributive
 	w                                                *prove.World
+	md4Fields                                        int // declared fields of struct MD4 (0: not resolved)
 }
 
 func runC01(c *Ctx) {
@@ -49,6 +50,7 @@ func runC01(c *Ctx) {
 		"R2-composition (E5 provenance: every def-use path, labels = calls passed): md4.Sum(data) hashes exactly data; nt.NTHash hashes exactly EncodeUTF16LE(password) with no other transformation of the password (ToUpper/ToLower/TrimSpace/slicing fire) and returns that hash object's Sum; dcc.DCCHashFromNTHash and dcc2.DCC2HashWithNTHash hash exactly ntHash ‖ EncodeUTF16LE(ToLower(username)) in that order; dcc2 calls pbkdf2.Key(password = that MD4 digest, salt = EncodeUTF16LE(ToLower(username)) (the same value or an identical composition), iter = the rounds parameter, keyLen = 16, h = sha1.New) and formats \"$DCC2$%d#%s#%s\" from (rounds, username, hex(key)); lm.LMHash: both DES keys derive from the password only through strings.ToUpper, the two halves are windows [0:7] and [7:14] of ONE string whose length is proved to be 14 on every path (E1 prover over the truncate/pad branches), each cipher encrypts the constant \"KGS!@#$%\" into its own fresh 8-byte buffer and the result is buffer(first half) ‖ buffer(second half); the hex / hashcat wrappers are hex.EncodeToString (optionally ToLower) of the raw function applied to the same parameters in the same roles, the DCC hashcat line is \"%s:%s\" of (hex digest, ToLower(username)). " +
 		"R3-utf16-lanes (exact bit lanes of the loop bodies): EncodeUTF16LE writes bits 0–7 of code unit i to byte 2i and bits 8–15 to byte 2i+1 for every i of unicode/utf16.Encode([]rune(s)), into a buffer of 2·len units; DecodeUTF16LE reads unit j from bytes 2j (low) and 2j+1 (high) and returns string(unicode/utf16.Decode(units)) — the two lane maps are mutually inverse on whole units. " +
 		"R4-des-key-spread (exact bit lanes): in lm.LMHash the 56 bits of each 7-byte half land, in order, in bits 7..1 of the 8 DES key bytes (bit 0 of each key byte is the parity position DES ignores and is unconstrained). " +
+		"Shapes decided (behaviour-preserving rewrites stay silent): the LM chains may be written in LMHash or down a path of up to three unexported helpers (a helper used twice is two chains; the key may be built by a further helper that returns the 8-byte buffer); the padded password is a string whose length is proved 14, or a zero-initialised 14-byte buffer written by exactly one copy(buf, ToUpper(password)) that precedes both uses; key bytes may be read at offsets 0..6 / 7..13 of one source; the magic may be a local constant or an unexported package-level variable that nothing but its initialiser writes anywhere in the module; the two ciphertexts are concatenated or encrypted in place into windows [0:8] / [8:16] of the returned 16-byte buffer. EncodeUTF16LE may fill a make([]byte, 2·len(units)) buffer by index (byte stores or binary.LittleEndian.PutUint16) or be in append form: one binary.LittleEndian.AppendUint16 / append(acc, byte(u), byte(u>>8)) per element of a range loop over utf16.Encode([]rune(s)), or over utf16.AppendRune(empty, r) for every rune r of s in order, onto an accumulator that starts empty (read off the accumulator's φ graph: no iteration can skip or repeat an emission); DecodeUTF16LE may read units with binary.LittleEndian.Uint16. The hashcat lines may be fmt.Sprintf of the spec format or the equivalent string concatenation (integers through strconv.Itoa / FormatInt(·, 10)). bytes.Clone / slices.Clone / slices.Concat are copies, not transformations. " +
 		"NOT decided: equality of any output with RFC 1320 / MS-NLMP / MS-Cache reference values; the MD4 round arithmetic, constants, rotation amounts and padding arithmetic; invariance of the streaming MD4 under splitting the message across Write calls and the buffering arithmetic around offsets 55/56/64; DES, SHA-1, HMAC and PBKDF2 numerics (standard library / x/crypto, trusted); surrogate handling inside unicode/utf16; behaviour of LMHash for passwords that are not 7-bit ASCII (ToUpper may change the byte length before truncation); PBKDF2 behaviour for rounds < 1; whether hashcat lower-cases the DCC2 user name."
 	r.Assumptions = []string{
 		cryTrusted,
@@ -89,7 +91,12 @@ func runC01(c *Ctx) {
 	x.r4()
 	x.finish()
 
-	r.Floor(c01R1, 6)
+	// one obligation per declared field of MD4 for each of Sum and HexSum
+	if x.md4Fields > 0 {
+		r.Floor(c01R1, 2*x.md4Fields)
+	} else {
+		r.Floor(c01R1, 6)
+	}
 	r.Floor(c01R2, 45)
 	r.Floor(c01R3, 9)
 	r.Floor(c01R4, 16)
@@ -113,6 +120,7 @@ func (x *c01) r1() {
 		return
 	}
 	x.R.Extra["md4_state_fields"] = fields
+	x.md4Fields = len(fields)
 	for _, fn := range []*ssa.Function{x.fSum, x.fHexSum} {
 		if fn == nil {
 			continue
@@ -307,12 +315,30 @@ func (x *c01) r2dcc() {
 	}
 }
 
+// posser is what callers of sprintf need of the formatting site.
+type posser interface{ Pos() token.Pos }
+
+type posAt token.Pos
+
+func (p posAt) Pos() token.Pos { return token.Pos(p) }
+
 // sprintf finds the single fmt.Sprintf whose result the function returns and
-// decodes its arguments; the format must be the spec constant.
-func (x *cry) sprintf(fn *ssa.Function, rule, name, format string) ([]ssa.Value, *ssa.Call) {
+// decodes its arguments; the format must be the spec constant. A line built by
+// string concatenation instead ("a" + x + ":" + y, integers through
+// strconv.Itoa / FormatInt(…, 10)) is decoded against the same format.
+func (x *cry) sprintf(fn *ssa.Function, rule, name, format string) ([]ssa.Value, posser) {
 	spf := x.ext("fmt", "Sprintf")
 	calls := callsTo(fn, spf)
 	construct := name + ": format"
+	if len(calls) == 0 {
+		if args, at, why := x.concatLine(fn, format); args != nil {
+			x.R.OK(rule, construct, x.pos(at), fmt.Sprintf("string concatenation with the literal pieces of %q, %d arguments, returned as is", format, len(args)))
+			return args, posAt(at)
+		} else if why != "" {
+			x.R.Undecided(rule, construct, x.pos(fn.Pos()), "no fmt.Sprintf call, and the returned string is not a concatenation in the shape of "+fmt.Sprintf("%q", format)+": "+why)
+			return nil, nil
+		}
+	}
 	if len(calls) != 1 {
 		x.R.Undecided(rule, construct, x.pos(fn.Pos()), fmt.Sprintf("%d fmt.Sprintf calls, expected exactly one", len(calls)))
 		return nil, nil
@@ -341,6 +367,90 @@ func (x *cry) sprintf(fn *ssa.Function, rule, name, format string) ([]ssa.Value,
 	}
 	x.R.OK(rule, construct, x.pos(call.Pos()), fmt.Sprintf("format %q, %d arguments, returned as is", format, len(args)))
 	return args, call
+}
+
+// concatLine decodes `lit0 + a0 + lit1 + a1 + … + litn` against a format made
+// of literal text and %s / %d verbs only.
+func (x *cry) concatLine(fn *ssa.Function, format string) (args []ssa.Value, at token.Pos, why string) {
+	var lits []string
+	var verbs []byte
+	cur := ""
+	for i := 0; i < len(format); i++ {
+		if format[i] == '%' && i+1 < len(format) && (format[i+1] == 's' || format[i+1] == 'd') {
+			lits, verbs, cur = append(lits, cur), append(verbs, format[i+1]), ""
+			i++
+			continue
+		}
+		if format[i] == '%' {
+			return nil, 0, "the format has a verb other than %s / %d"
+		}
+		cur += string(format[i])
+	}
+	lits = append(lits, cur)
+	rets := cryptoSuccessReturns(fn)
+	if len(rets) != 1 || len(rets[0].Results) == 0 {
+		return nil, 0, "more than one successful return"
+	}
+	segs := x.e.Segs(rets[0].Results[0], nil)
+	if len(segs) < 2 {
+		return nil, 0, "the result " + flow.Expr(rets[0].Results[0]) + " is not a concatenation"
+	}
+	constOf := func(v ssa.Value) (string, bool) {
+		k, ok := flow.Strip(v).(*ssa.Const)
+		if !ok || k.Value == nil || k.Value.Kind() != constant.String {
+			return "", false
+		}
+		return constant.StringVal(k.Value), true
+	}
+	pos := 0
+	for k := 0; k <= len(verbs); k++ {
+		acc := ""
+		for pos < len(segs) && len(acc) < len(lits[k]) {
+			c, ok := constOf(segs[pos].V)
+			if !ok {
+				break
+			}
+			acc += c
+			pos++
+		}
+		if acc != lits[k] {
+			return nil, 0, fmt.Sprintf("literal piece %d is %q, the format has %q there", k, acc, lits[k])
+		}
+		if k == len(verbs) {
+			break
+		}
+		if pos >= len(segs) {
+			return nil, 0, "the concatenation ends before all fields are written"
+		}
+		a := segs[pos].V
+		pos++
+		if verbs[k] == 'd' {
+			c, ok := flow.Strip(a).(*ssa.Call)
+			f := (*ssa.Function)(nil)
+			if ok {
+				f = c.Call.StaticCallee()
+			}
+			switch {
+			case f != nil && f.String() == "strconv.Itoa" && len(c.Call.Args) == 1:
+				a = c.Call.Args[0]
+			case f != nil && (f.String() == "strconv.FormatInt" || f.String() == "strconv.FormatUint") && len(c.Call.Args) == 2:
+				if b, isK := constI(c.Call.Args[1]); !isK || b != 10 {
+					return nil, 0, "an integer field is not formatted in base 10"
+				}
+				a = c.Call.Args[0]
+				if cv, isCv := a.(*ssa.Convert); isCv {
+					a = cv.X
+				}
+			default:
+				return nil, 0, "an integer field is not strconv.Itoa / FormatInt(·, 10) of a value"
+			}
+		}
+		args = append(args, a)
+	}
+	if pos != len(segs) {
+		return nil, 0, "the concatenation has more pieces than the format"
+	}
+	return args, rets[0].Pos(), ""
 }
 
 func (x *c01) r2dcc2() {
@@ -428,25 +538,70 @@ func constI(v ssa.Value) (int64, bool) {
 
 // ---- LM ------------------------------------------------------------------------
 
+// lmLevel is one function on the static call path from LMHash down to the
+// function that holds a DES chain (or builds its key); site is the call in the
+// level above that enters fn (nil for LMHash itself).
+type lmLevel struct {
+	fn   *ssa.Function
+	site *ssa.Call
+}
+
 type lmChain struct {
-	cfn    *ssa.Function // function the chain's instructions live in (LMHash or a one-level helper)
-	site   *ssa.Call     // call of the helper in LMHash (nil: inline)
+	levels []lmLevel     // levels[0] = LMHash; last = the function holding NewCipher/Encrypt
+	cfn    *ssa.Function // = levels[last].fn
 	newc   *ssa.Call     // des.NewCipher
 	enc    *ssa.Call     // Encrypt
-	key    ssa.Value     // key buffer
+	key    ssa.Value     // key buffer (a value of cfn)
 	dst    ssa.Value
 	out    ssa.Value // the ciphertext as a value of LMHash
-	half   ssa.Value // the []byte(…) the key bytes are spread from (a value of LMHash)
-	str    ssa.Value // the string the half is a window of
+	outObj ssa.Value // in-place form: the 16-byte result buffer the ciphertext is a window of …
+	outLo  int       // … starting here
+	half   ssa.Value // the 7 bytes the key is spread from, lifted as far up as parameters allow
+	halfLv int       // level half lives in (0 = LMHash)
+	off    int       // first byte of half that is used
+	str    ssa.Value // string case: the string the half is a window of
+	obj    ssa.Value // buffer case: the fixed-size byte buffer the half is a window of
 	lo, hi int       // window; hi == -1: open
 	at     ssa.Instruction
 }
 
+func (c *lmChain) site() *ssa.Call {
+	if len(c.levels) > 1 {
+		return c.levels[1].site
+	}
+	return nil
+}
+
 func (c *lmChain) pos() token.Pos {
-	if c.site != nil {
-		return c.site.Pos()
+	if s := c.site(); s != nil {
+		return s.Pos()
 	}
 	return c.newc.Pos()
+}
+
+// anchor: the instruction of LMHash at which the chain's inputs are consumed.
+func (c *lmChain) anchor() ssa.Instruction {
+	if s := c.site(); s != nil {
+		return s
+	}
+	return c.newc
+}
+
+// liftVal follows parameters of levels[lv].fn up the call path while it can.
+func liftVal(levels []lmLevel, lv int, v ssa.Value) (ssa.Value, int) {
+	for lv > 0 {
+		p, ok := flow.Strip(v).(*ssa.Parameter)
+		if !ok {
+			break
+		}
+		i := paramIndex(levels[lv].fn, p)
+		if i < 0 || i >= len(levels[lv].site.Call.Args) {
+			break
+		}
+		v = levels[lv].site.Call.Args[i]
+		lv--
+	}
+	return flow.Strip(v), lv
 }
 
 // cipherKey resolves a cipher.Block value to the call that made it and the key
@@ -506,17 +661,27 @@ func (x *c01) directChains(fn *ssa.Function) []*lmChain {
 			prev.enc = nil // one cipher, several Encrypt calls
 			continue
 		}
-		ch := &lmChain{cfn: fn, newc: nc, key: key, enc: enc, lo: -2}
+		ch := &lmChain{cfn: fn, newc: nc, key: key, enc: enc, lo: -2, levels: []lmLevel{{fn: fn}}}
 		seen[nc] = ch
 		out = append(out, ch)
 	}
 	return out
 }
 
-// lmChains: the DES chains of fn, inline or one call level down in an
-// in-module helper that contains exactly one chain.
+// lmChains: the DES chains of fn — inline, or down a path of in-module helpers
+// each of which contains exactly one chain (so a helper called twice is two
+// chains, one per call).
 func (x *c01) lmChains(fn *ssa.Function) []*lmChain {
+	out := x.lmChainsAt(fn, 0, map[*ssa.Function]bool{fn: true})
+	sort.SliceStable(out, func(i, j int) bool { return out[i].pos() < out[j].pos() })
+	return out
+}
+
+func (x *c01) lmChainsAt(fn *ssa.Function, depth int, busy map[*ssa.Function]bool) []*lmChain {
 	out := x.directChains(fn)
+	if depth >= 3 {
+		return out
+	}
 	for _, b := range fn.Blocks {
 		for _, in := range b.Instrs {
 			call, ok := in.(*ssa.Call)
@@ -524,17 +689,74 @@ func (x *c01) lmChains(fn *ssa.Function) []*lmChain {
 				continue
 			}
 			g := call.Call.StaticCallee()
-			if g == nil || g == fn || g.Blocks == nil || !x.P.InModule(g) || x.opaque[g] {
+			if g == nil || busy[g] || g.Blocks == nil || !x.P.InModule(g) || x.opaque[g] {
 				continue
 			}
-			if gc := x.directChains(g); len(gc) == 1 {
-				gc[0].site = call
-				out = append(out, gc[0])
+			busy[g] = true
+			gc := x.lmChainsAt(g, depth+1, busy)
+			delete(busy, g)
+			if len(gc) != 1 {
+				continue
 			}
+			ch := gc[0]
+			ch.levels[0].site = call
+			ch.levels = append([]lmLevel{{fn: fn}}, ch.levels...)
+			out = append(out, ch)
 		}
 	}
-	sort.SliceStable(out, func(i, j int) bool { return out[i].pos() < out[j].pos() })
 	return out
+}
+
+// fixedBuf: v is a fresh local buffer of n bytes (make([]byte, n) or a window of
+// a local [n]byte).
+func fixedBuf(v ssa.Value, n int) bool {
+	if flow.StaticLen(v) != n {
+		return false
+	}
+	switch y := v.(type) {
+	case *ssa.MakeSlice:
+		return true
+	case *ssa.Slice:
+		_, ok := y.X.(*ssa.Alloc)
+		return ok
+	}
+	return false
+}
+
+// keyBuilder locates the function in which the 8-byte key buffer is filled:
+// the chain's own function, or an in-module helper that returns the buffer.
+func (x *c01) keyBuilder(ch *lmChain) (levels []lmLevel, buf ssa.Value, before []ssa.Instruction) {
+	v := flow.Strip(ch.key)
+	if fixedBuf(v, 8) {
+		return ch.levels, v, []ssa.Instruction{ch.newc}
+	}
+	s := v
+	if ex, ok := s.(*ssa.Extract); ok && ex.Index == 0 {
+		s = ex.Tuple
+	}
+	call, ok := s.(*ssa.Call)
+	if !ok {
+		return nil, nil, nil
+	}
+	g := call.Call.StaticCallee()
+	if g == nil || g.Blocks == nil || !x.P.InModule(g) || x.opaque[g] {
+		return nil, nil, nil
+	}
+	for _, ret := range cryptoSuccessReturns(g) {
+		if len(ret.Results) == 0 {
+			return nil, nil, nil
+		}
+		r := flow.Strip(ret.Results[0])
+		if buf != nil && r != buf {
+			return nil, nil, nil
+		}
+		buf = r
+		before = append(before, ret)
+	}
+	if buf == nil || !fixedBuf(buf, 8) {
+		return nil, nil, nil
+	}
+	return append(append([]lmLevel{}, ch.levels...), lmLevel{fn: g, site: call}), buf, before
 }
 
 func (x *c01) r2lm() {
@@ -555,36 +777,52 @@ func (x *c01) r2lm() {
 	for i, ch := range chains {
 		tag := fmt.Sprintf("%s: DES key %d", name, i+1)
 		// provenance: only the password, always through ToUpper
-		keyAllow := []string{x.lRepeat, "len", "slice[:14]", "slice[:7]", "slice[7:]", "slice[7:14]", "slice[0:7]", "slice[:8]"}
+		keyAllow := []string{x.lRepeat, "len", "slice[:14]", "slice[:7]", "slice[7:]", "slice[7:14]", "slice[0:7]", "slice[:8]", "slice[0:14]"}
 		pc := tag + " ← password through ToUpper only"
-		if ch.site == nil {
+		top := need{what: "password", src: isParam(0), must: []string{x.lUpper}, allow: keyAllow}
+		blevels, _, _ := x.keyBuilder(ch)
+		if blevels == nil {
+			blevels = ch.levels
+		}
+		if len(blevels) == 1 {
 			set := x.e.Prov(fn, ch.key)
-			bad, und := judge(set, []need{{what: "password", src: isParam(0), must: []string{x.lUpper}, allow: keyAllow}}, constsOnly)
+			bad, und := judge(set, []need{top}, constsOnly)
 			x.verdict(c01R2, pc, ch.pos(), bad, und, trim(set.String(), 200))
 		} else {
-			// inside the helper the key derives only from one parameter; at the call that
-			// parameter receives the upper-cased password
-			hp, isP := ch.half.(*ssa.Parameter)
-			_ = hp
-			set := x.e.Prov(ch.cfn, ch.key)
+			// in each helper on the way the value derives only from one parameter; at
+			// LMHash's call that parameter receives the upper-cased password
 			var bad, und string
-			pi := -1
-			for o := range set {
-				if o.Src.Kind == flow.SParam {
-					pi = o.Src.Idx
-				}
-			}
-			if pi < 0 || pi >= len(ch.site.Call.Args) {
-				und = "the key built in helper " + x.P.FuncName(ch.cfn) + " does not derive from one of its parameters"
+			var via []string
+			lv := len(blevels) - 1
+			var v ssa.Value
+			if lv == len(ch.levels) {
+				// key built in a helper: start from the buffer it returns
+				_, v, _ = x.keyBuilder(ch)
 			} else {
-				bad, und = judge(set, []need{{what: "the helper's key-material parameter", src: isParam(pi), allow: keyAllow}}, constsOnly)
-				if bad == "" && und == "" {
-					cs := x.e.Prov(fn, ch.site.Call.Args[pi])
-					bad, und = judge(cs, []need{{what: "password", src: isParam(0), must: []string{x.lUpper}, allow: keyAllow}}, constsOnly)
-				}
+				v = ch.key
 			}
-			_ = isP
-			x.verdict(c01R2, pc, ch.pos(), bad, und, "through helper "+x.P.FuncName(ch.cfn))
+			for ; lv > 0 && bad == "" && und == ""; lv-- {
+				f := blevels[lv].fn
+				via = append(via, x.P.FuncName(f))
+				set := x.e.Prov(f, v)
+				pi := -1
+				for o := range set {
+					if o.Src.Kind == flow.SParam {
+						pi = o.Src.Idx
+					}
+				}
+				if pi < 0 || pi >= len(blevels[lv].site.Call.Args) {
+					und = "the key material in helper " + x.P.FuncName(f) + " does not derive from one of its parameters"
+					break
+				}
+				bad, und = judge(set, []need{{what: "the helper's key-material parameter", src: isParam(pi), allow: keyAllow}}, constsOnly)
+				v = blevels[lv].site.Call.Args[pi]
+			}
+			if bad == "" && und == "" {
+				cs := x.e.Prov(fn, v)
+				bad, und = judge(cs, []need{top}, constsOnly)
+			}
+			x.verdict(c01R2, pc, ch.pos(), bad, und, "through helper(s) "+strings.Join(via, " ← "))
 		}
 		// window
 		wantLo, wantHi := 7*i, 7*i+7
@@ -592,16 +830,22 @@ func (x *c01) r2lm() {
 		switch {
 		case ch.half == nil:
 			x.R.Undecided(c01R2, wc, x.pos(ch.pos()), "the key bytes could not be traced to one 7-byte source (see "+c01R4+")")
-		case ch.str == nil:
-			x.R.Undecided(c01R2, wc, x.pos(ch.pos()), "the key source "+flow.Expr(ch.half)+" is not a []byte conversion of a constant window of a string")
+		case ch.str == nil && ch.obj == nil:
+			x.R.Undecided(c01R2, wc, x.pos(ch.pos()), "the key source "+flow.Expr(ch.half)+" is not a constant window of the padded password (a []byte conversion of a string window, or a window of a fixed 14-byte buffer)")
 		case ch.lo != wantLo || (ch.hi != wantHi && !(ch.hi == -1 && i == 1)):
 			hi := fmt.Sprint(ch.hi)
 			if ch.hi == -1 {
 				hi = ""
 			}
-			x.R.Fail(c01R2, wc, x.pos(ch.pos()), fmt.Sprintf("key %d is spread from %s[%d:%s]; LM uses bytes %d..%d of the padded password for key %d (halves swapped or mis-cut)", i+1, flow.Expr(ch.str), ch.lo, hi, wantLo, wantHi-1, i+1))
-		default:
+			src := ch.str
+			if src == nil {
+				src = ch.obj
+			}
+			x.R.Fail(c01R2, wc, x.pos(ch.pos()), fmt.Sprintf("key %d is spread from %s[%d:%s]; LM uses bytes %d..%d of the padded password for key %d (halves swapped or mis-cut)", i+1, flow.Expr(src), ch.lo, hi, wantLo, wantHi-1, i+1))
+		case ch.str != nil:
 			x.R.OK(c01R2, wc, x.pos(ch.pos()), "window of "+flow.Expr(ch.str))
+		default:
+			x.R.OK(c01R2, wc, x.pos(ch.pos()), "window of the buffer "+flow.Expr(ch.obj))
 		}
 		// Encrypt(dst, magic)
 		ec := tag + ": Encrypt(fresh 8-byte buffer, \"KGS!@#$%\")"
@@ -610,24 +854,33 @@ func (x *c01) r2lm() {
 			continue
 		}
 		ch.dst = ch.enc.Call.Args[0]
-		if ch.site == nil {
-			ch.out = ch.dst
-		} else {
+		// the ciphertext as a value of LMHash: the destination itself, or the result
+		// of the helper call(s) that return it
+		{
+			v := flow.Strip(ch.dst)
 			okRet := true
-			for _, ret := range cryptoSuccessReturns(ch.cfn) {
-				if flow.Strip(ret.Results[0]) != flow.Strip(ch.dst) {
-					okRet = false
+			for lv := len(ch.levels) - 1; lv > 0 && okRet; lv-- {
+				for _, ret := range cryptoSuccessReturns(ch.levels[lv].fn) {
+					if len(ret.Results) == 0 || flow.Strip(ret.Results[0]) != v {
+						okRet = false
+					}
 				}
+				v = ch.levels[lv].site
 			}
 			if okRet {
-				ch.out = ch.site
+				ch.out = v
 			}
 		}
-		if b, ok := x.e.ConstBytes(ch.enc.Call.Args[1]); !ok {
+		dstOK := flow.StaticLen(ch.dst) == 8
+		// in-place form: the destination is an 8-byte window of LMHash's 16-byte result
+		if root, lo, _, ok := bufRoot(flow.Strip(ch.dst)); ok && len(ch.levels) == 1 && dstOK && objLen(root) == 16 {
+			ch.outObj, ch.outLo = root, lo
+		}
+		if b, ok := x.e.ConstBytesRO(ch.enc.Call.Args[1]); !ok {
 			x.R.Undecided(ec, ec, x.pos(ch.enc.Pos()), "plaintext "+flow.Expr(ch.enc.Call.Args[1])+" is not a constant that nothing writes")
 		} else if string(b) != c01Magic {
 			x.R.Fail(c01R2, ec, x.pos(ch.enc.Pos()), fmt.Sprintf("plaintext is %q, the LM magic constant is %q", string(b), c01Magic))
-		} else if flow.StaticLen(ch.dst) != 8 {
+		} else if !dstOK {
 			x.R.Fail(c01R2, ec, x.pos(ch.enc.Pos()), "destination "+flow.Expr(ch.dst)+" is not an 8-byte buffer")
 		} else if ch.out == nil {
 			x.R.Fail(c01R2, ec, x.pos(ch.enc.Pos()), "helper "+x.P.FuncName(ch.cfn)+" does not return the Encrypt destination")
@@ -637,7 +890,8 @@ func (x *c01) r2lm() {
 	}
 	// both halves are windows of the same 14-byte string
 	sc := name + ": both halves are cut from one string of length 14"
-	if chains[0].str != nil && chains[1].str != nil {
+	switch {
+	case chains[0].str != nil && chains[1].str != nil:
 		if chains[0].str != chains[1].str {
 			x.R.Fail(c01R2, sc, x.pos(fn.Pos()), "the halves are windows of different strings: "+flow.Expr(chains[0].str)+" and "+flow.Expr(chains[1].str))
 		} else {
@@ -658,10 +912,44 @@ func (x *c01) r2lm() {
 			// the pad byte is NUL
 			x.lmPad(fn, S)
 		}
+	case chains[0].obj != nil && chains[1].obj != nil:
+		if chains[0].obj != chains[1].obj {
+			x.R.Fail(c01R2, sc, x.pos(fn.Pos()), "the halves are windows of different buffers: "+flow.Expr(chains[0].obj)+" and "+flow.Expr(chains[1].obj))
+		} else {
+			x.lmBuffer(fn, chains[0].obj, sc, []ssa.Instruction{chains[0].anchor(), chains[1].anchor()})
+		}
+	case (chains[0].str != nil || chains[0].obj != nil) && (chains[1].str != nil || chains[1].obj != nil):
+		x.R.Fail(c01R2, sc, x.pos(fn.Pos()), "one half is cut from a string and the other from a byte buffer: they are not windows of one padded password")
 	}
 	// result = dst1 ‖ dst2
 	rc := name + ": return = Encrypt(key1) ‖ Encrypt(key2)"
 	for _, ret := range cryptoSuccessReturns(fn) {
+		// in-place: both ciphertexts are windows [0:8] and [8:16] of the returned buffer
+		if o := chains[0].outObj; o != nil && o == chains[1].outObj {
+			rv := flow.Strip(ret.Results[0])
+			if root, lo, _, ok := bufRoot(rv); ok && lo == 0 && flow.StaticLen(rv) == 16 {
+				rv = root
+			}
+			extra := ""
+			for _, w := range x.e.WritersOf(fn, o) {
+				if w != ssa.Instruction(chains[0].enc) && w != ssa.Instruction(chains[1].enc) {
+					extra = flow.Expr(o) + " is also written by an instruction other than the two Encrypt calls"
+				}
+			}
+			switch {
+			case rv != o:
+				x.R.Fail(c01R2, rc, x.pos(ret.Pos()), "the result is "+flow.Expr(ret.Results[0])+", not the buffer the two ciphertexts are written into")
+			case extra != "":
+				x.R.Undecided(c01R2, rc, x.pos(ret.Pos()), extra)
+			case chains[0].outLo == 0 && chains[1].outLo == 8:
+				x.R.OK(c01R2, rc, x.pos(ret.Pos()), "ciphertext of the first half at [0:8], of the second at [8:16] of the returned buffer")
+			case chains[0].outLo == 8 && chains[1].outLo == 0:
+				x.R.Fail(c01R2, rc, x.pos(ret.Pos()), "the two ciphertexts are concatenated in the wrong order (second half first)")
+			default:
+				x.R.Fail(c01R2, rc, x.pos(ret.Pos()), fmt.Sprintf("the ciphertexts are written at offsets %d and %d of the result, not 0 and 8", chains[0].outLo, chains[1].outLo))
+			}
+			continue
+		}
 		segs := x.e.Segs(ret.Results[0], nil)
 		if len(segs) != 2 || chains[0].out == nil || chains[1].out == nil {
 			x.R.Fail(c01R2, rc, x.pos(ret.Pos()), fmt.Sprintf("the result has %d segment(s), LM is the 8-byte ciphertext of the first half followed by that of the second", len(segs)))
@@ -676,6 +964,127 @@ func (x *c01) r2lm() {
 		default:
 			x.R.Fail(c01R2, rc, x.pos(ret.Pos()), "the result is "+flow.Expr(segs[0].V)+" ‖ "+flow.Expr(segs[1].V)+", not the two Encrypt destinations")
 		}
+	}
+}
+
+// objLen: the fixed length of a local byte buffer (a [n]byte cell or make([]byte, n)).
+func objLen(v ssa.Value) int {
+	switch y := v.(type) {
+	case *ssa.Alloc:
+		if a, ok := y.Type().Underlying().(*types.Pointer).Elem().Underlying().(*types.Array); ok {
+			return int(a.Len())
+		}
+	case *ssa.MakeSlice:
+		if n, ok := constI(y.Len); ok {
+			return int(n)
+		}
+	}
+	return -1
+}
+
+// bufRoot peels constant windows off a byte-slice value down to the local
+// buffer it views: root is a [n]byte cell or a make([]byte, n) of non-constant
+// n; off is where the view starts in it and lim where it ends (-1: open).
+func bufRoot(v ssa.Value) (root ssa.Value, off, lim int, ok bool) {
+	lim = -1
+	for d := 0; d < 8; d++ {
+		switch y := v.(type) {
+		case *ssa.Alloc:
+			if n := objLen(y); n >= 0 {
+				if lim < 0 || lim > n {
+					lim = n
+				}
+				return y, off, lim, true
+			}
+			return nil, 0, 0, false
+		case *ssa.MakeSlice:
+			return y, off, lim, true
+		case *ssa.Slice:
+			lo, isK := sliceLow(y)
+			if !isK || y.Max != nil {
+				return nil, 0, 0, false
+			}
+			// bounds are relative to the operand: outer offsets accumulate
+			if y.High != nil {
+				k, isK := constI(y.High)
+				if !isK {
+					return nil, 0, 0, false
+				}
+				// this window ends at k of the operand; translate what we have so far
+				if lim < 0 || lim > int(k)-lo {
+					lim = int(k) - lo
+				}
+			}
+			// off/lim so far are relative to this slice's start; shift into the operand
+			off += lo
+			if lim >= 0 {
+				lim += lo
+			}
+			v = y.X
+			continue
+		}
+		return nil, 0, 0, false
+	}
+	return nil, 0, 0, false
+}
+
+func sliceLow(s *ssa.Slice) (int, bool) {
+	if s.Low == nil {
+		return 0, true
+	}
+	k, ok := constI(s.Low)
+	return int(k), ok
+}
+
+// lmBuffer: the padded password is a fixed 14-byte local buffer. It is
+// zero-initialised; it must be written by exactly one copy(buf[0:], upper) that
+// precedes both uses (copy stops at 14 bytes = truncation, the untouched tail
+// stays NUL = padding).
+func (x *c01) lmBuffer(fn *ssa.Function, obj ssa.Value, sc string, uses []ssa.Instruction) {
+	pc := x.P.FuncName(fn) + ": pad byte"
+	n := objLen(obj)
+	if n != 14 {
+		x.R.Fail(c01R2, sc, x.pos(obj.Pos()), fmt.Sprintf("the padded password is a %d-byte buffer, LM pads/truncates to 14", n))
+		return
+	}
+	var cp *ssa.Call
+	other := ""
+	for _, w := range x.e.WritersOf(fn, obj) {
+		c, isC := w.(*ssa.Call)
+		if isC {
+			if bi, isB := c.Call.Value.(*ssa.Builtin); isB && bi.Name() == "copy" && cp == nil {
+				cp = c
+				continue
+			}
+		}
+		other = fmt.Sprintf("the buffer is also written by %s", strings.TrimSpace(w.String()))
+	}
+	switch {
+	case cp == nil:
+		x.R.Fail(c01R2, sc, x.pos(obj.Pos()), "nothing copies the password into the 14-byte buffer")
+		return
+	case other != "":
+		x.R.Undecided(c01R2, pc, x.pos(obj.Pos()), other+"; the bytes the password does not cover may no longer be NUL")
+		return
+	}
+	off := -1
+	if root, o, _, ok := bufRoot(flow.Strip(cp.Call.Args[0])); ok && root == obj {
+		off = o
+	}
+	early := true
+	for _, u := range uses {
+		if !flow.Dominates(cp, u) || flow.InLoop(cp) {
+			early = false
+		}
+	}
+	switch {
+	case off != 0:
+		x.R.Fail(c01R2, sc, x.pos(cp.Pos()), "the password is not copied to the start of the 14-byte buffer (destination "+flow.Expr(cp.Call.Args[0])+")")
+	case !early:
+		x.R.Fail(c01R2, sc, x.pos(cp.Pos()), "the copy of the password into the buffer does not precede both key derivations on every path")
+	default:
+		x.R.OK(c01R2, sc, x.pos(cp.Pos()), "a 14-byte buffer; copy stops after 14 bytes (truncate when longer) and leaves the zero-initialised tail (NUL-pad when shorter)")
+		x.R.OK(c01R2, pc, x.pos(obj.Pos()), "zero-initialised buffer written by that copy only: pads with NUL bytes")
 	}
 }
 
@@ -717,8 +1126,8 @@ func (x *c01) lmPad(fn *ssa.Function, S ssa.Value) {
 // ---- R4: 7 → 8 byte key spreading ---------------------------------------------
 
 // keyStores collects, for an 8-byte key buffer value, the single store into
-// each constant index.
-func keyStores(buf ssa.Value, before ssa.Instruction) (map[int]*ssa.Store, string) {
+// each constant index; every store must precede each instruction of `before`.
+func keyStores(buf ssa.Value, before []ssa.Instruction) (map[int]*ssa.Store, string) {
 	out := map[int]*ssa.Store{}
 	var roots []ssa.Value
 	roots = append(roots, buf)
@@ -747,8 +1156,10 @@ func keyStores(buf ssa.Value, before ssa.Instruction) (map[int]*ssa.Store, strin
 				if out[int(idx)] != nil {
 					return nil, fmt.Sprintf("key byte %d is stored more than once", idx)
 				}
-				if flow.InLoop(st) || !flow.Dominates(st, before) {
-					return nil, fmt.Sprintf("the store to key byte %d does not precede des.NewCipher on every path", idx)
+				for _, bf := range before {
+					if flow.InLoop(st) || !flow.Dominates(st, bf) {
+						return nil, fmt.Sprintf("the store to key byte %d does not precede des.NewCipher on every path", idx)
+					}
 				}
 				out[int(idx)] = st
 			}
@@ -757,15 +1168,33 @@ func keyStores(buf ssa.Value, before ssa.Instruction) (map[int]*ssa.Store, strin
 	return out, ""
 }
 
+// stableBytes: the bytes of base do not change while the key is spread from
+// them: nothing in fn writes them, or every write precedes `at` on every path.
+func (x *c01) stableBytes(fn *ssa.Function, base ssa.Value, at ssa.Instruction) bool {
+	if x.e.ReadOnly(base) {
+		return true
+	}
+	root, _, _, ok := bufRoot(base)
+	if !ok {
+		return false
+	}
+	for _, w := range x.e.WritersOf(fn, root) {
+		if flow.InLoop(w) || !flow.Dominates(w, at) {
+			return false
+		}
+	}
+	return true
+}
+
 func (x *c01) keySpread(top *ssa.Function, ch *lmChain, n int) {
-	fn := ch.cfn
 	name := x.P.FuncName(top)
-	keyV := flow.Strip(ch.key)
-	if flow.StaticLen(keyV) != 8 {
-		x.R.Undecided(c01R4, fmt.Sprintf("%s: DES key %d", name, n), x.pos(ch.newc.Pos()), "the key "+flow.Expr(ch.key)+" is not a fixed 8-byte buffer built in this function")
+	blevels, keyV, before := x.keyBuilder(ch)
+	if keyV == nil {
+		x.R.Undecided(c01R4, fmt.Sprintf("%s: DES key %d", name, n), x.pos(ch.newc.Pos()), "the key "+flow.Expr(ch.key)+" is not a fixed 8-byte buffer built in this function or returned by an in-module helper that builds it")
 		return
 	}
-	stores, why := keyStores(keyV, ch.newc)
+	fn := blevels[len(blevels)-1].fn
+	stores, why := keyStores(keyV, before)
 	if stores == nil {
 		x.R.Undecided(c01R4, fmt.Sprintf("%s: DES key %d", name, n), x.pos(ch.newc.Pos()), why)
 		return
@@ -787,12 +1216,17 @@ func (x *c01) keySpread(top *ssa.Function, ch *lmChain, n int) {
 			return nil, false
 		}
 		base := flow.Strip(ia.X)
-		if _, isConv := base.(*ssa.Convert); !isConv {
-			if _, isParam := base.(*ssa.Parameter); !isParam {
+		switch b := base.(type) {
+		case *ssa.Convert, *ssa.Parameter, *ssa.Alloc, *ssa.MakeSlice:
+		case *ssa.Slice:
+			// a constant window of a local buffer
+			if _, _, _, ok := bufRoot(b); !ok {
 				return nil, false
 			}
+		default:
+			return nil, false
 		}
-		if !x.e.ReadOnly(base) {
+		if !x.stableBytes(fn, base, u) {
 			return nil, false
 		}
 		id, ok := srcs[base]
@@ -804,19 +1238,24 @@ func (x *c01) keySpread(top *ssa.Function, ch *lmChain, n int) {
 		return lanes.SrcByte(id, int(idx)), true
 	}
 	fr := an.Root(fn)
-	allOK := true
+	// the half may start at a byte offset of its source (key 2 read from bytes 7..13
+	// of one buffer): the offset is where bit 7 of key byte 0 comes from
+	off, src0 := 0, 0
+	if st := stores[0]; st != nil {
+		if vec := fr.Lanes(st.Val); len(vec) == 8 && vec[7].K == lanes.Src && vec[7].B == 7 {
+			off, src0 = vec[7].I, vec[7].S
+		}
+	}
 	for k := 0; k < 8; k++ {
 		construct := fmt.Sprintf("%s: DES key %d byte %d", name, n, k)
 		st := stores[k]
 		if st == nil {
 			x.R.Fail(c01R4, construct, x.pos(ch.newc.Pos()), "this key byte is never stored (stays 0): 7 bits of the half are dropped")
-			allOK = false
 			continue
 		}
 		vec := fr.Lanes(st.Val)
 		if len(vec) != 8 {
 			x.R.Undecided(c01R4, construct, x.pos(st.Pos()), "stored value is not a byte")
-			allOK = false
 			continue
 		}
 		bad := ""
@@ -829,7 +1268,7 @@ func (x *c01) keySpread(top *ssa.Function, ch *lmChain, n int) {
 				bad = "-"
 				break
 			}
-			if got.K != lanes.Src || got.S != 0 || got.I != wi || got.B != wb {
+			if got.K != lanes.Src || got.S != src0 || got.I != wi+off || got.B != wb {
 				bad = fmt.Sprintf("bit %d holds %s, the DES key schedule (str_to_key) needs bit %d of half byte %d there (stream bit %d)", b, laneStr(got), wb, wi, sbit)
 				break
 			}
@@ -838,38 +1277,55 @@ func (x *c01) keySpread(top *ssa.Function, ch *lmChain, n int) {
 		case "":
 			x.R.OK(c01R4, construct, x.pos(st.Pos()), fmt.Sprintf("bits 7..1 = stream bits %d..%d of the 7-byte half; bit 0 (parity) unconstrained", 7*k, 7*k+6))
 		case "-":
-			allOK = false
 		default:
 			x.R.Fail(c01R4, construct, x.pos(st.Pos()), bad)
-			allOK = false
 		}
 	}
-	if len(srcList) >= 1 {
-		// source 0 is the half all constrained bits come from
-		ch.half = srcList[0]
-		if p, isP := ch.half.(*ssa.Parameter); isP && ch.site != nil {
-			if i := paramIndex(fn, p); i >= 0 && i < len(ch.site.Call.Args) {
-				ch.half = flow.Strip(ch.site.Call.Args[i])
-			}
+	if src0 >= len(srcList) {
+		return
+	}
+	// the half all constrained bits come from, lifted to LMHash through parameters
+	ch.off = off
+	ch.half, ch.halfLv = liftVal(blevels, len(blevels)-1, srcList[src0])
+	if ch.halfLv != 0 {
+		return
+	}
+	switch h := ch.half.(type) {
+	case *ssa.Convert:
+		if b, isB := h.X.Type().Underlying().(*types.Basic); !isB || b.Info()&types.IsString == 0 {
+			return
 		}
-		if cv, ok := ch.half.(*ssa.Convert); ok {
-			if sl, ok := cv.X.(*ssa.Slice); ok {
-				lo, hi, okB := 0, -1, true
-				if sl.Low != nil {
-					k, ok := constI(sl.Low)
-					lo, okB = int(k), okB && ok
+		if sl, ok := h.X.(*ssa.Slice); ok {
+			lo, hi, okB := 0, -1, true
+			if sl.Low != nil {
+				k, ok := constI(sl.Low)
+				lo, okB = int(k), okB && ok
+			}
+			if sl.High != nil {
+				k, ok := constI(sl.High)
+				hi, okB = int(k), okB && ok
+			}
+			if okB {
+				ch.str, ch.lo, ch.hi, ch.at = sl.X, lo, hi, sl
+				if off != 0 {
+					ch.lo, ch.hi = lo+off, lo+off+7
+					if hi >= 0 && ch.hi > hi {
+						ch.hi = hi + 1000 // reads past the window: reported as mis-cut
+					}
 				}
-				if sl.High != nil {
-					k, ok := constI(sl.High)
-					hi, okB = int(k), okB && ok
-				}
-				if okB {
-					ch.str, ch.lo, ch.hi, ch.at = sl.X, lo, hi, sl
-				}
+			}
+		} else {
+			ch.str, ch.lo, ch.hi, ch.at = h.X, off, off+7, h
+		}
+	case *ssa.Slice, *ssa.Alloc, *ssa.MakeSlice:
+		// the seven bytes used are [o+off, o+off+7) of the buffer the view starts at o of
+		if root, o, lim, ok := bufRoot(h); ok {
+			ch.obj, ch.lo, ch.hi, ch.at = root, o+off, o+off+7, ch.anchor()
+			if lim >= 0 && ch.hi > lim {
+				ch.hi = lim // the view is shorter than the seven bytes read: reported as mis-cut
 			}
 		}
 	}
-	_ = allOK
 }
 
 func laneStr(b lanes.Bit) string {
@@ -940,6 +1396,18 @@ func affine(v ssa.Value, stop ...ssa.Value) (base ssa.Value, mul, add int64) {
 // counted: index value I runs over 0..len(over)-1 with stride `stride`
 // (range loop or classic for loop), and the body executes for each.
 func counted(I ssa.Value, bodyBlock *ssa.BasicBlock) (over ssa.Value, stride int64, slack int64, ok bool) {
+	// rotated form (range over an int): the test sits before the loop and at the
+	// end of the body: i = φ[0, i+1]; `0 < n` guards the entry, `i+1 < n` the back edge
+	if phi, isPhi := I.(*ssa.Phi); isPhi {
+		if bound, okR := rotatedLoop(phi); okR && (phi.Block() == bodyBlock || phi.Block().Dominates(bodyBlock)) {
+			if lc, isC := bound.(*ssa.Call); isC {
+				if b, isB := lc.Call.Value.(*ssa.Builtin); isB && b.Name() == "len" {
+					return lc.Call.Args[0], 1, 0, true
+				}
+			}
+			return nil, 0, 0, false
+		}
+	}
 	// range form: I = φ+1, φ = [-1, I]; cond I < len(over)
 	// for form:   I = φ,   φ = [0, φ+stride]; cond φ(+slack) < len(over)
 	var phi *ssa.Phi
@@ -1018,6 +1486,65 @@ func counted(I ssa.Value, bodyBlock *ssa.BasicBlock) (over ssa.Value, stride int
 	return lc.Call.Args[0], stride, slack, true
 }
 
+// rotatedLoop: phi = [0 on entry, phi+1 on the back edge] of a loop whose test
+// `· < bound` is evaluated on 0 before the loop is entered and on phi+1 at the
+// end of the body (the shape go/ssa gives `for i := range n`): phi runs over
+// 0..bound-1 and the body executes for each value.
+func rotatedLoop(phi *ssa.Phi) (bound ssa.Value, ok bool) {
+	if len(phi.Edges) != 2 {
+		return nil, false
+	}
+	hb := phi.Block()
+	var next *ssa.BinOp
+	var entry *ssa.BasicBlock
+	for i, e := range phi.Edges {
+		if k, isK := constI(e); isK && k == 0 {
+			entry = hb.Preds[i]
+			next, _ = phi.Edges[1-i].(*ssa.BinOp)
+		}
+	}
+	if entry == nil || next == nil || next.Op != token.ADD || next.X != ssa.Value(phi) {
+		return nil, false
+	}
+	if k, isK := constI(next.Y); !isK || k != 1 {
+		return nil, false
+	}
+	test := func(b *ssa.BasicBlock, lhs func(ssa.Value) bool) (ssa.Value, bool) {
+		if len(b.Instrs) == 0 {
+			return nil, false
+		}
+		iff, isIf := b.Instrs[len(b.Instrs)-1].(*ssa.If)
+		if !isIf || b.Succs[0] != hb {
+			return nil, false
+		}
+		cmp, isB := iff.Cond.(*ssa.BinOp)
+		if !isB || cmp.Op != token.LSS || !lhs(cmp.X) {
+			return nil, false
+		}
+		return cmp.Y, true
+	}
+	b0, ok0 := test(entry, func(v ssa.Value) bool { k, isK := constI(v); return isK && k == 0 })
+	b1, ok1 := test(next.Block(), func(v ssa.Value) bool { return v == ssa.Value(next) })
+	if !ok0 || !ok1 {
+		return nil, false
+	}
+	if b0 != b1 {
+		k0, isK0 := constI(b0)
+		k1, isK1 := constI(b1)
+		if !isK0 || !isK1 || k0 != k1 {
+			return nil, false
+		}
+	}
+	// the back edge leaves from the block that computes phi+1, and nothing else enters the loop
+	for i, p := range hb.Preds {
+		if p != entry && p != next.Block() {
+			return nil, false
+		}
+		_ = i
+	}
+	return b1, true
+}
+
 func (x *c01) r3() {
 	x.r3enc()
 	x.r3dec()
@@ -1044,8 +1571,16 @@ func (x *c01) r3enc() {
 		return
 	}
 	buf, ok := flow.Strip(rets[0].Results[0]).(*ssa.MakeSlice)
+	if ok {
+		// make([]byte, 0, n) grown by append is the append form, not the indexed one
+		if k, isK := constI(buf.Len); isK && k == 0 {
+			ok = false
+		}
+	}
 	if !ok {
-		x.R.Undecided(c01R3, name+": result buffer", x.pos(rets[0].Pos()), "the result is "+flow.Expr(rets[0].Results[0])+", not a buffer allocated here with make")
+		if why := x.r3encAppend(fn, rets[0]); why != "" {
+			x.R.Undecided(c01R3, name+": result buffer", x.pos(rets[0].Pos()), "the result is "+flow.Expr(rets[0].Results[0])+": neither a buffer allocated here with make and filled by index, nor a recognised append form ("+why+")")
+		}
 		return
 	}
 	// units = utf16.Encode([]rune(s))
@@ -1070,9 +1605,14 @@ func (x *c01) r3enc() {
 		x.R.Fail(c01R3, lc, x.pos(buf.Pos()), "the buffer is "+flow.Expr(buf)+": not exactly two bytes per code unit")
 	}
 	// stores
+	// one byte written into the buffer: a store buf[idx] = val, or one half of a
+	// binary.{Little,Big}Endian.PutUint16(buf[idx:], val) (part 0 = first byte)
 	type st struct {
-		s   *ssa.Store
-		idx ssa.Value
+		s    ssa.Instruction
+		idx  ssa.Value
+		val  ssa.Value
+		part int // -1: plain byte store
+		be   bool
 	}
 	var stores []st
 	for _, r := range *buf.Referrers() {
@@ -1080,10 +1620,42 @@ func (x *c01) r3enc() {
 		case *ssa.IndexAddr:
 			for _, rr := range *y.Referrers() {
 				if s, ok := rr.(*ssa.Store); ok && s.Addr == ssa.Value(y) {
-					stores = append(stores, st{s, y.Index})
+					stores = append(stores, st{s, y.Index, s.Val, -1, false})
 				}
 			}
 		case *ssa.Return, *ssa.DebugRef:
+		case *ssa.Slice:
+			// buf[k:] handed to PutUint16 only
+			okPut := y.Low != nil && y.Referrers() != nil
+			var puts []st
+			for _, rr := range *y.Referrers() {
+				if _, dbg := rr.(*ssa.DebugRef); dbg {
+					continue
+				}
+				c, isC := rr.(*ssa.Call)
+				be, isPut := false, false
+				if isC && c.Call.StaticCallee() != nil && len(c.Call.Args) == 3 && c.Call.Args[1] == ssa.Value(y) {
+					switch c.Call.StaticCallee().String() {
+					case "(encoding/binary.littleEndian).PutUint16":
+						isPut = true
+					case "(encoding/binary.bigEndian).PutUint16":
+						isPut, be = true, true
+					}
+				}
+				if !isPut {
+					okPut = false
+					break
+				}
+				puts = append(puts, st{c, y.Low, c.Call.Args[2], 0, be}, st{c, y.Low, c.Call.Args[2], 1, be})
+			}
+			if okPut && len(puts) > 0 {
+				stores = append(stores, puts...)
+				continue
+			}
+			if !x.e.ReadOnly(buf) {
+				x.R.Undecided(c01R3, name+": result buffer", x.pos(buf.Pos()), fmt.Sprintf("the buffer is also used by %T; its bytes may be written elsewhere", r))
+				return
+			}
 		default:
 			if !x.e.ReadOnly(buf) {
 				x.R.Undecided(c01R3, name+": result buffer", x.pos(buf.Pos()), fmt.Sprintf("the buffer is also used by %T; its bytes may be written elsewhere", r))
@@ -1113,8 +1685,18 @@ func (x *c01) r3enc() {
 	fr := an.Root(fn)
 	seen := map[int64]bool{}
 	for _, s := range stores {
-		vec := fr.Lanes(s.s.Val)
+		vec := fr.Lanes(s.val)
 		b, m, a := affine(s.idx, unitIdx)
+		if s.part >= 0 {
+			a += int64(s.part)
+			if len(vec) == 16 {
+				half := s.part // little-endian: first byte = bits 0..7
+				if s.be {
+					half = 1 - s.part
+				}
+				vec = vec[8*half : 8*half+8]
+			}
+		}
 		construct := fmt.Sprintf("%s: byte 2i+%d", name, a)
 		if unitIdx == nil || b != unitIdx || m != 2 || (a != 0 && a != 1) {
 			x.R.Fail(c01R3, fmt.Sprintf("%s: store at %s", name, flow.Expr(s.idx)), x.pos(s.s.Pos()), "the byte index is not 2·i or 2·i+1 of the code-unit index i the value is read at")
@@ -1151,6 +1733,285 @@ func (x *c01) r3enc() {
 	} else {
 		x.R.Fail(c01R3, cc, x.pos(fn.Pos()), "no store reads a code unit")
 	}
+}
+
+// binaryCall16: the call is encoding/binary.{Little,Big}Endian.<method>.
+func binaryCall16(c *ssa.Call, method string) (isIt, be bool) {
+	f := c.Call.StaticCallee()
+	if f == nil {
+		return false, false
+	}
+	switch f.String() {
+	case "(encoding/binary.littleEndian)." + method:
+		return true, false
+	case "(encoding/binary.bigEndian)." + method:
+		return true, true
+	}
+	return false, false
+}
+
+// emptySlice: a slice value of length 0 (nil, make(_, 0, n), x[:0], []T{}).
+func emptySlice(v ssa.Value) bool {
+	v = flow.Strip(v)
+	if k, ok := v.(*ssa.Const); ok {
+		return k.Value == nil
+	}
+	if m, ok := v.(*ssa.MakeSlice); ok {
+		k, isK := constI(m.Len)
+		return isK && k == 0
+	}
+	if sl, ok := v.(*ssa.Slice); ok {
+		if sl.High != nil {
+			if k, isK := constI(sl.High); isK && k == 0 {
+				return true
+			}
+		}
+		if a, ok := sl.X.(*ssa.Alloc); ok {
+			if arr, ok := a.Type().Underlying().(*types.Pointer).Elem().Underlying().(*types.Array); ok && arr.Len() == 0 {
+				return true
+			}
+		}
+	}
+	return false
+}
+
+// rangeElem: v is the element of a `for _, v := range over` loop that visits
+// every element in order; head is the loop-header block.
+func rangeElem(v ssa.Value) (over ssa.Value, head *ssa.BasicBlock, ok bool) {
+	switch y := v.(type) {
+	case *ssa.UnOp: // slice range: *(&over[i])
+		if y.Op != token.MUL {
+			return nil, nil, false
+		}
+		ia, isIA := y.X.(*ssa.IndexAddr)
+		if !isIA {
+			return nil, nil, false
+		}
+		o, stride, slack, okc := counted(ia.Index, y.Block())
+		if !okc || stride != 1 || slack != 0 || flow.Strip(o) != flow.Strip(ia.X) {
+			return nil, nil, false
+		}
+		return flow.Strip(ia.X), loopHead(ia.Index), true
+	case *ssa.Index: // array value range
+		return nil, nil, false
+	case *ssa.Extract: // string range: extract (next (range s)) #2
+		nx, isN := y.Tuple.(*ssa.Next)
+		if !isN || y.Index != 2 || !nx.IsString {
+			return nil, nil, false
+		}
+		rg, isR := nx.Iter.(*ssa.Range)
+		if !isR {
+			return nil, nil, false
+		}
+		// the body runs iff ok: the header ends in `if ok goto body`
+		hb := nx.Block()
+		iff, isIf := hb.Instrs[len(hb.Instrs)-1].(*ssa.If)
+		if !isIf {
+			return nil, nil, false
+		}
+		okx, isX := iff.Cond.(*ssa.Extract)
+		if !isX || okx.Tuple != ssa.Value(nx) || okx.Index != 0 || !(hb.Succs[0] == y.Block() || hb.Succs[0].Dominates(y.Block())) {
+			return nil, nil, false
+		}
+		return flow.Strip(rg.X), hb, true
+	}
+	return nil, nil, false
+}
+
+// loopHead: the block of the φ behind a counted index (I = φ or φ+1).
+func loopHead(I ssa.Value) *ssa.BasicBlock {
+	switch y := I.(type) {
+	case *ssa.Phi:
+		return y.Block()
+	case *ssa.BinOp:
+		if p, ok := y.X.(*ssa.Phi); ok {
+			return p.Block()
+		}
+	}
+	return nil
+}
+
+// r3encAppend decides the append form of EncodeUTF16LE:
+//
+//	acc := <empty>; for each rune r of s, in order { for each unit u of
+//	utf16(r), in order { acc = append16LE(acc, u) } }; return acc
+//
+// (or one loop over utf16.Encode([]rune(s))). The shape is read off the
+// accumulator's φ graph: each loop's accumulator φ has exactly two incoming
+// values, the one from outside and the one the body produces, and the body's
+// value is the single emission applied to that very φ — so no iteration can skip
+// or repeat an emission. It returns "" when it produced the R3 obligations,
+// else why the shape is not this form (nothing is recorded then).
+func (x *c01) r3encAppend(fn *ssa.Function, ret *ssa.Return) string {
+	name := x.P.FuncName(fn)
+	u16enc := x.ext("unicode/utf16", "Encode")
+	u16app := x.ext("unicode/utf16", "AppendRune")
+	res := flow.Strip(ret.Results[0])
+	// twoEdge: φ with exactly two distinct incoming values
+	other := func(phi *ssa.Phi, not ssa.Value) (ssa.Value, bool) {
+		if len(phi.Edges) != 2 {
+			return nil, false
+		}
+		a, b := flow.Strip(phi.Edges[0]), flow.Strip(phi.Edges[1])
+		switch {
+		case a == not && b != not:
+			return b, true
+		case b == not && a != not:
+			return a, true
+		}
+		return nil, false
+	}
+	// afterLoop: v is the accumulator's value when the loop of φ p is left: p
+	// itself, or (rotated loop: test at the end of the body) a φ over the same two
+	// values as p
+	afterLoop := func(v ssa.Value, p *ssa.Phi) bool {
+		if v == ssa.Value(p) {
+			return true
+		}
+		q, isPhi := v.(*ssa.Phi)
+		if !isPhi || len(q.Edges) != 2 || len(p.Edges) != 2 {
+			return false
+		}
+		a0, a1 := flow.Strip(q.Edges[0]), flow.Strip(q.Edges[1])
+		b0, b1 := flow.Strip(p.Edges[0]), flow.Strip(p.Edges[1])
+		return (a0 == b0 && a1 == b1) || (a0 == b1 && a1 == b0)
+	}
+	// find the single emission that feeds the result
+	var emits []*ssa.Call
+	seen := map[ssa.Value]bool{}
+	var walk func(v ssa.Value)
+	walk = func(v ssa.Value) {
+		v = flow.Strip(v)
+		if seen[v] {
+			return
+		}
+		seen[v] = true
+		switch y := v.(type) {
+		case *ssa.Phi:
+			for _, e := range y.Edges {
+				walk(e)
+			}
+		case *ssa.Call:
+			if is, _ := binaryCall16(y, "AppendUint16"); is {
+				emits = append(emits, y)
+				walk(y.Call.Args[1])
+				return
+			}
+			if bi, isB := y.Call.Value.(*ssa.Builtin); isB && bi.Name() == "append" && len(y.Call.Args) == 2 {
+				emits = append(emits, y)
+				walk(y.Call.Args[0])
+			}
+		}
+	}
+	walk(res)
+	if len(emits) == 0 {
+		return "nothing is appended to the result"
+	}
+	if len(emits) != 1 {
+		return fmt.Sprintf("%d append sites feed the result, expected one two-byte emission per code unit", len(emits))
+	}
+	em := emits[0]
+	var acc, unit ssa.Value
+	var lo8, hi8 lanes.Vec // lanes of the first and second emitted byte, relative to the unit
+	isBin, be := binaryCall16(em, "AppendUint16")
+	if isBin {
+		acc, unit = em.Call.Args[1], em.Call.Args[2]
+		lo8, hi8 = unit16Lanes(0)[0:8], unit16Lanes(0)[8:16]
+		if be {
+			lo8, hi8 = hi8, lo8
+		}
+	} else {
+		acc = em.Call.Args[0]
+		elems, ok := flow.VarArgs(em.Call.Args[1])
+		if !ok || len(elems) != 2 {
+			return "the appended tail is not exactly two byte expressions"
+		}
+		an := &lanes.Analyzer{InModule: x.P.InModule}
+		an.Leaf = func(f *lanes.Frame, v ssa.Value) (lanes.Vec, bool) {
+			if ld, ok := v.(*ssa.UnOp); ok && ld.Op == token.MUL {
+				if _, isIA := ld.X.(*ssa.IndexAddr); isIA {
+					if w, _, isInt := lanes.IntWidth(v.Type()); isInt && w == 16 {
+						if unit == nil {
+							unit = v
+						}
+						if unit == v {
+							return unit16Lanes(0), true
+						}
+					}
+				}
+			}
+			return nil, false
+		}
+		fr := an.Root(fn)
+		lo8, hi8 = fr.Lanes(elems[0]), fr.Lanes(elems[1])
+		if unit == nil {
+			return "the appended bytes do not read a 16-bit code unit"
+		}
+	}
+	// the unit loop
+	phiU, ok := flow.Strip(acc).(*ssa.Phi)
+	if !ok {
+		return "the emission does not extend a loop-carried accumulator"
+	}
+	outerU, ok := other(phiU, ssa.Value(em))
+	if !ok {
+		return "the unit loop's accumulator has other incoming values than (outside value, emission)"
+	}
+	units, headU, ok := rangeElem(unit)
+	if !ok || headU != phiU.Block() {
+		return "the emitted value is not the element of a loop over every code unit"
+	}
+	uc := name + ": code units = unicode/utf16.Encode([]rune(s))"
+	ucall, _ := units.(*ssa.Call)
+	var init ssa.Value
+	okUnits, unitsMsg := false, ""
+	switch {
+	case ucall != nil && u16enc != nil && ucall.Call.StaticCallee() == u16enc:
+		// whole string at once
+		if cv, ok := ucall.Call.Args[0].(*ssa.Convert); ok && flow.Strip(cv.X) == ssa.Value(fn.Params[0]) && afterLoop(res, phiU) {
+			okUnits, unitsMsg, init = true, "runes of the parameter go through the standard library (surrogate pairs delegated)", outerU
+		}
+	case ucall != nil && u16app != nil && ucall.Call.StaticCallee() == u16app && emptySlice(ucall.Call.Args[0]):
+		// rune by rune
+		r := ucall.Call.Args[1]
+		over, headR, okR := rangeElem(r)
+		phiR, isPhi := outerU.(*ssa.Phi)
+		if okR && isPhi && phiR.Block() == headR && afterLoop(res, phiR) {
+			if o, ok2 := other(phiR, ssa.Value(phiU)); ok2 {
+				src := over
+				if cv, isCv := src.(*ssa.Convert); isCv { // for _, r := range []rune(s)
+					src = flow.Strip(cv.X)
+				}
+				if src == ssa.Value(fn.Params[0]) {
+					okUnits, unitsMsg, init = true, "every rune of the parameter, in order, goes through unicode/utf16.AppendRune (surrogate pairs delegated); its units are emitted before the next rune", o
+				}
+			}
+		}
+	}
+	if !okUnits {
+		return "the code units are not unicode/utf16.Encode([]rune(s)) nor unicode/utf16.AppendRune of every rune of s in order"
+	}
+	x.R.OK(c01R3, uc, x.pos(ucall.Pos()), unitsMsg)
+	lc := name + ": buffer length = 2·len(units)"
+	if emptySlice(init) {
+		x.R.OK(c01R3, lc, x.pos(em.Pos()), "append form: the result starts empty and grows by exactly two bytes per code unit")
+	} else {
+		x.R.Fail(c01R3, lc, x.pos(em.Pos()), "the result does not start empty: it begins with "+flow.Expr(init))
+	}
+	for a, vec := range []lanes.Vec{lo8, hi8} {
+		construct := fmt.Sprintf("%s: byte 2i+%d", name, a)
+		want := unit16Lanes(0)[8*a : 8*a+8]
+		switch {
+		case len(vec) == 8 && vec.Equal(want):
+			x.R.OK(c01R3, construct, x.pos(em.Pos()), fmt.Sprintf("holds bits %d..%d of code unit i", 8*a, 8*a+7))
+		case vec.HasTop() || len(vec) != 8:
+			x.R.Undecided(c01R3, construct, x.pos(em.Pos()), "not a pure bit movement of the code unit")
+		default:
+			x.R.Fail(c01R3, construct, x.pos(em.Pos()), fmt.Sprintf("holds %s; UTF-16LE puts bits %d..%d of the code unit here (byte order)", vec.String(nil), 8*a, 8*a+7))
+		}
+	}
+	x.R.OK(c01R3, name+": loop covers every code unit", x.pos(em.Pos()), "one emission per iteration of a range loop over the code units (the accumulator φ has no other incoming value)")
+	return ""
 }
 
 func (x *c01) r3dec() {
@@ -1214,6 +2075,32 @@ func (x *c01) r3dec() {
 	an := &lanes.Analyzer{InModule: x.P.InModule}
 	bad := ""
 	an.Leaf = func(f *lanes.Frame, v ssa.Value) (lanes.Vec, bool) {
+		// binary.{Little,Big}Endian.Uint16(b[k:]) reads bytes k and k+1
+		if c, isC := v.(*ssa.Call); isC {
+			if is, be := binaryCall16(c, "Uint16"); is {
+				sl, isS := c.Call.Args[1].(*ssa.Slice)
+				if !isS || sl.X != ssa.Value(b) || sl.Low == nil {
+					return nil, false
+				}
+				base, m, a := affine(sl.Low, I, J)
+				okIdx := false
+				if halfForm {
+					okIdx = base == I && m == 1 && a == 0
+				} else {
+					okIdx = base == J && m == 2 && a == 0
+				}
+				if !okIdx {
+					bad = "reads input bytes at " + flow.Expr(sl.Low) + ", which is not byte 2j of the unit index j it is stored at"
+					return nil, false
+				}
+				first, second := lanes.SrcByte(0, 0), lanes.SrcByte(0, 1)
+				if be {
+					first, second = second, first
+				}
+				return append(append(lanes.Vec{}, first...), second...), true
+			}
+			return nil, false
+		}
 		u, ok := v.(*ssa.UnOp)
 		if !ok || u.Op != token.MUL {
 			return nil, false
